@@ -32,7 +32,7 @@ pub fn pos_tails() -> Vec<Tail> {
 }
 
 pub fn leaf(named: Vec<Named>, tail: Tail) -> Level {
-    Level { named, tail, version: None }
+    Level { named, tail, version: None, usage_fallback: false }
 }
 
 /// sub-levels used under a command name (slots 4.. so that names differ from the parent's)
